@@ -235,6 +235,18 @@ register(
     "DESIGN.md §3 C10",
 )
 
+register(
+    "C15",
+    "bounded-exhaustive product grid over source and load spring-mass networks x EVERY ordered interface selection up to 3 DOF x boundary form (recovery matrix; Craig-Bampton partition vector with b-set first/last/interleaved/unsorted; truncated modes) on both sides x damping (none, proportional, dashpots, non-symmetric) x frequency set placed around the coupled resonances x every unit and a dense force x solver route, against a direct solve of the physically coupled system",
+    "Every model pair x interface x form x damping x frequency x force combination is run through calcAM/ntfl and the "
+    "interface acceleration and force are compared with the solution of the physically coupled equations (constraint "
+    "elimination, direct complex solve); apparent mass x accelerance = I, TAM = SAM + LAM, R = diag(TAM^-1 SAM) and "
+    "AM(w->0) = physical mass are checked; the SolveUnc, FreqDirect and precomputed-array routes must agree.",
+    "Trusted: vf/ref/cb_ref.py (network assembly, coupling, textbook Craig-Bampton reduction); 1-D networks; "
+    "tolerance graded by the conditioning of the accelerances and of the reference solve.",
+    "DESIGN.md §3 C15",
+)
+
 
 def build():
     checks = []
